@@ -44,8 +44,10 @@ func (r *chunkedReader) Read(p []byte) (n int, err error) {
 			r.chunkRemain -= innerN
 			sizeToRead -= innerN
 			n += innerN
-			if err == io.EOF && r.chunkRemain > 0 {
-				// the body ends inside the data of a chunk
+			if err == io.EOF {
+				// the body ends inside the data of a chunk, or right after it
+				// (a reader may return the last bytes along with io.EOF): the
+				// CRLF and the terminating chunk are missing either way
 				err = ErrIncompleteBody
 			}
 			if err != nil {
